@@ -526,6 +526,32 @@ impl Prop for C07 {
                                     out.fail("C07:from-parts-differs", "filter built from parts has a different meaning than the parsed one");
                                     return out;
                                 }
+                                // the same parts written into a caller-supplied buffer with prior contents: same bytes
+                                let mut dirty = vec![c.fill | 0x11; q.bytes.len() + 8];
+                                let same = guard("Filter::from_parts", || {
+                                    let ids: Vec<pocket_types::Id> = c.f.ids.iter().map(|s| pocket_types::Id::from_bytes(arr32(s))).collect();
+                                    let authors: Vec<pocket_types::Pubkey> = c.f.authors.iter().map(|s| pocket_types::Pubkey::from_bytes(arr32(s))).collect();
+                                    let kinds: Vec<pocket_types::Kind> = c.f.kinds.iter().map(|k| pocket_types::Kind::from_u16(*k)).collect();
+                                    let tags = of.tags().map_err(|e| e.to_string())?;
+                                    Filter::from_parts(&ids, &authors, &kinds, tags, c.f.since.map(pocket_types::Time::from_u64), c.f.until.map(pocket_types::Time::from_u64), c.f.limit, &mut dirty)
+                                        .map(|f| f.as_bytes() == q.bytes.as_slice() && f == &*of)
+                                        .map_err(|e| e.to_string())
+                                });
+                                match same {
+                                    Ok(Ok(true)) => {}
+                                    Ok(Ok(false)) => {
+                                        out.fail("C07:from-parts-noncanonical", "Filter::from_parts into a buffer with prior contents differs (bytes or ==) from OwnedFilter::new of the same parts");
+                                        return out;
+                                    }
+                                    Ok(Err(e)) => {
+                                        out.fail("C07:from-parts-failed", e);
+                                        return out;
+                                    }
+                                    Err(f) => {
+                                        out.fail(format!("C07:from-parts:{}", f.key), f.detail);
+                                        return out;
+                                    }
+                                }
                                 check_roundtrip(&q, &mut out, "from-parts");
                             }
                             Ok(Err(e)) => out.fail("C07:from-parts:accessors", e),
